@@ -44,7 +44,7 @@ LEVEL_TEXT = ("Sampled programs over sampled layouts; every step is compared. "
               "The program space is unbounded, hence exploration.")
 LEVEL_NOTE = ("Trusts breezy.tests.test_server.SmartTCPServer_for_testing as a "
               "faithful in-process server and the local snapshot reader.")
-REGISTERED = False
+REGISTERED = True
 NONTRIVIAL_FLOOR = {"quick": 40, "thorough": 1500}
 
 KEYS = ["vf_opt", "nickname", "vf_other"]
@@ -218,6 +218,25 @@ class Side:
                         b.last_revision_info(), b.revno())
         r = b.pull(self.src, stop_revision=self.rid(i), overwrite=overwrite)
         return (r.old_revno, r.new_revno, r.old_revid, r.new_revid)
+
+    def op_pull_tag(self, name, i, tag, j):
+        """Under one write lock: read the tags, pull (the source's tags come
+        along), set one more tag, read the tags again."""
+        b = self.handle(name)
+        with b.lock_write():
+            t0 = b.tags.get_tag_dict()
+            r = b.pull(self.src, stop_revision=self.rid(i))
+            b.tags.set_tag(tag, self.rid(j))
+            return (t0, (r.old_revno, r.new_revno), b.tags.get_tag_dict())
+
+    def op_gen_history(self, name, i, j):
+        b = self.handle(name)
+        with b.lock_write():
+            if not (b.repository.has_revision(self.rid(i)) and
+                    b.repository.has_revision(self.rid(j))):
+                return "revision absent"
+            b.generate_revision_history(self.rid(i), last_rev=self.rid(j))
+            return b.last_revision_info()
 
     def op_commit(self, name):
         from breezy.branchbuilder import BranchBuilder
@@ -420,7 +439,7 @@ class Side:
         return self.handle(name).tags.get_tag_dict()
 
 
-WRITES = {"create", "push", "pull", "commit", "tag", "deltag", "tags-merge",
+WRITES = {"create", "push", "pull", "pull-tag", "gen-history", "commit", "tag", "deltag", "tags-merge",
           "cfg-set", "cfg-remove", "set-parent", "setrev", "pack",
           "leave-break"}
 
@@ -480,6 +499,19 @@ def run(case, env):
                       "other-key-is-present",
                       {"step": n, "op": op, "remote": ra, "local": rb,
                        "case": case})
+            if op[0] == "gen-history" and ra != rb and \
+                    rb == ("EXC", "DivergedBranches") and isinstance(ra, list):
+                check(False, "C32/generate_revision_history-ignores-last_rev-"
+                      "on-remote-branch",
+                      {"step": n, "op": op, "remote": ra, "local": rb,
+                       "case": case})
+            if op[0] == "pull-tag" and ra != rb and isinstance(ra, list) and \
+                    isinstance(rb, list) and ra[:2] == rb[:2] and \
+                    all(t in rb[2] for t in ra[2]):
+                check(False, "C32/pull-then-set_tag-under-one-lock-loses-"
+                      "pulled-tags-on-remote-branch",
+                      {"step": n, "op": op, "remote": ra, "local": rb,
+                       "case": case})
             check(ra == rb, "C32/%s-result-differs" % op[0],
                   {"step": n, "op": op, "remote": repr(ra)[:1500],
                    "local": repr(rb)[:1500], "case": case})
@@ -505,7 +537,8 @@ def run(case, env):
                 wrote = wrote or ra[0] != "EXC"
             elif wrote:
                 read_after_write = True
-            if op[0] in WRITES and len(op) > 1 and op[-1] is True:
+            if op[0] in ("pull-tag", "gen-history") or \
+                    op[0] in WRITES and len(op) > 1 and op[-1] is True:
                 read_after_write = True    # write + read under one lock
     finally:
         for side in (sa, sb):
@@ -540,7 +573,7 @@ def gen_case(draw, tier):
              "setrev", "setrev",
              "pack", "leave-break", "info", "info", "parentmap",
              "get-revision", "gettext", "iter-inv", "get-rev-id", "dotted",
-             "all-ids", "tags", "history"]))
+             "all-ids", "tags", "history", "pull-tag", "gen-history"]))
         if kind == "create":
             if len(names) >= 3:
                 continue
@@ -552,6 +585,11 @@ def gen_case(draw, tier):
         elif kind == "pull":
             prog.append(["pull", name, draw(ridx), draw(st.booleans()),
                          draw(st.booleans())])
+        elif kind == "pull-tag":
+            prog.append(["pull-tag", name, draw(ridx),
+                         draw(st.sampled_from(TAGS)), draw(ridx)])
+        elif kind == "gen-history":
+            prog.append(["gen-history", name, draw(ridx), draw(ridx)])
         elif kind == "parentmap":
             prog.append([kind, name, draw(st.sampled_from(
                 [False, False, False, True]))])
